@@ -334,4 +334,20 @@ PROPS = {
         "trusted_base": TREE_TB + CTRL_TB,
         "assumptions": ["client List/Watch return once their context is cancelled", "bounds are in virtual time"],
     },
+    "C09": {
+        "engines": [{"go": "join", "bin": "kconc", "driver": "join",
+                     "actions": ("scenario", "jstart", "jsrc", "jmid", "jdst", "jrelease", "burst-begin", "burst-end", "jclose", "end"),
+                     "args_quick": ["-n", "360"], "args_thorough": ["-n", "5400"],
+                     "classify": ctrl_cls(("C09",)), "resets": ["scenario"],
+                     "nontrivial": lambda l: l.startswith("(jobs") and "(obj" in l}],
+        "rule": "join engine: all eight generated joins and IngressPods (round robin) over two / three fake API servers; source objects with "
+                "selectors from the universe {absent, empty, one/two labels, Exists, In, NotIn} that appear, change selector and disappear, "
+                "destination objects in two namespaces with overlapping labels, changes on all sides singly and in bursts, optionally a gated "
+                "source list; at every quiescent point the join's cache must be the destination objects selected by the current sources "
+                "(reference: the model's filter constructors), readiness only after both sides, events a well-formed delta; then the result "
+                "is closed: it must be done, the bases must keep following their servers, and no monitor / filtered-clone / join goroutine may remain. "
+                "Non-trivial: an observation with a non-empty join or destination cache.",
+        "trusted_base": TREE_TB + ["the join is modelled as: deferred filtered clone (FSub) + source monitor issuing Refilter(filterFn(source cache)) (JS machine in Props/C09.lean)"],
+        "assumptions": ["sources are namespaced; the replication-controller join follows the (namespace-less) RC PodsFilter as is (known finding C19)"],
+    },
 }
